@@ -115,10 +115,18 @@ func authSetup(s *rt.Sim, tier string) func() {
 		}
 		fin := make(chan struct{}, ntasks)
 		accepted := 0
+		// knob (own stream): every task keeps one message variable and overwrites it for each
+		// call, like a receive loop that decodes into one value; what the authenticator remembers
+		// about an accepted message must not change when the caller's variable does
+		reuse := chance("cfg.y", 1, 2)
+		if reuse {
+			rt.Hit("auth.reused-message-variable")
+		}
 		for task := 0; task < ntasks; task++ {
 			task := task
 			go func() {
 				defer func() { fin <- struct{}{} }()
+				reuseBuf := authMessage(0, 0, 0)
 				for i := 0; i < perTask; i++ {
 					in := authIn{Pool: pick("op", 3)}
 					switch k := pick("op", 10); {
@@ -166,7 +174,12 @@ func authSetup(s *rt.Sim, tier string) func() {
 						case "coldkey":
 							m.ColdVerificationKey = append([]byte(nil), pools[(in.Pool+1)%3].coldPk...)
 						}
-						err := auth.VerifyMessage(&m)
+						mp := &m
+						if reuse {
+							reuseBuf = m
+							mp = &reuseBuf
+						}
+						err := auth.VerifyMessage(mp)
 						out = err == nil
 						if err == nil {
 							accepted++
